@@ -45,7 +45,7 @@ CHECKS = {
     'C18': dict(
         engine='procsim', level='fault_enumeration', design_ref='DESIGN.md 6',
         technique='deterministic simulation with fault injection: seeded epochs of real forked caller processes under the baton scheduler on an instrumented file layer (torn writes, kills at file operations, ENOSPC/EIO, pre-existing partial entries), plus complete enumeration of kill offsets within recorded entry writes',
-        text='History mode: 1-4 epochs of 1-3 real caller processes (fresh per epoch: only the cache directory survives) run memoised calls and partial iterations of resumable recursions through the real nutils.cache code; the simulator decides the interleaving at every file operation / flock / function entry and injects kills in the middle of a write, kills at chosen operations, raising functions, abandoned iterations, ENOSPC/EIO and truncated/empty/old-format entries. Workloads include array arguments in near-collision variants (memory order, transposes, element width, strides), two iterators over one recursion alive in one consumer, iterators left suspended. The memoised System.solve workload takes every solution method as argument; crash-point sweeps kill a caller at every operation boundary. Oracles: value and replayed log equal the uncached call, resume() starts from the right history, one process at a time inside the wrapped function per entry, progress. Enumeration mode: for entries recorded from a fault-free run EVERY byte offset at which the write can be cut is reconstructed and the call repeated twice (complete over that dimension for entries up to 4000 bytes); histories, schedules and payloads remain sampled.',
+        text='History mode: 1-4 epochs of 1-3 real caller processes (fresh per epoch: only the cache directory survives) run memoised calls and partial iterations of resumable recursions through the real nutils.cache code; the simulator decides the interleaving at every file operation / flock / function entry and injects kills in the middle of a write, kills at chosen operations, raising functions, abandoned iterations, ENOSPC/EIO and truncated/empty/old-format entries. Workloads include array arguments in near-collision variants (memory order, transposes, element width, strides), two iterators over one recursion alive in one consumer, iterators left suspended, recursions of length 0 to 3. The memoised System.solve workload takes every solution method as argument; crash-point sweeps kill a caller at every operation boundary. Oracles: value and replayed log equal the uncached call, resume() starts from the right history, one process at a time inside the wrapped function per entry, progress. Enumeration mode: for entries recorded from a fault-free run EVERY byte offset at which the write can be cut is reconstructed and the call repeated twice (complete over that dimension for entries up to 4000 bytes); histories, schedules and payloads remain sampled.',
         note='"killed" = SIGKILL of the process (completed writes survive); power loss is outside the statement; flock stub has kernel semantics (released on close and death; LOCK_NB supported); two known findings narrow classes (see known_findings.json); wrapped functions are deterministic, entries byte-stable across processes.'),
 }
 PLANNED = ('C03', 'C14', 'C16', 'C17', 'C18')
